@@ -40,6 +40,11 @@ def run(ctx):
         bind(cfg, crate, I, rep, key)
         whitelist(cfg, crate, body, I, rep, key)
         constructors(cfg, crate, rep)
+        # "carries the requested subject name ... rejected rather than partially honoured": the request's Name goes
+        # through the shared Name importer, which must refuse what a DistinguishedName cannot represent (multi-valued
+        # RDNs, repeated attribute types, unknown string kinds)
+        import c03
+        common.borrow_rules(rep, lambda: c03.check_import(cfg, crate, rep), "C03.", "C06.name")
 
 
 def verify(cfg, crate, body, I, rep, key):
